@@ -91,6 +91,15 @@ class C19(Property):
             x, y = rng.choice([(100.0, 0.0), (0.0, 50.0), (0.0, 0.0), (float(rng.randint(-50, 300)), 0.0)])
             flip = lambda v: -v if v == 0.0 else v
             items.append((rng.choice(g.MODES), [(float(rng.randint(-5, 5)), float(rng.randint(1, 9)) * 7.0, t), (x, y, None), (flip(x), flip(y), None)], "last-two-equal-signed-zero"))
+        # a linear path inside the decoder's coordinate range whose total length exceeds 2^24 (a zig-zag across the whole range) and
+        # then continues in half-pixel steps: a running sum kept in single precision absorbs the small segments (seed C19-m)
+        for _ in range(3 if tier == "quick" else 40):
+            zig = rng.choice([60, 101, 140])
+            w = rng.choice([100000.0, 131072.0, 90000.5])
+            pts = [((-w if i % 2 == 0 else w), 0.0, "L" if i == 0 else None) for i in range(zig)]
+            x = pts[-1][0]
+            pts += [(x, 0.5 * (j + 1), None) for j in range(rng.choice([50, 200]))]
+            items.append((rng.choice(g.MODES), pts, "zigzag-beyond-2^24"))
         lens = g.natural_lengths(core.run_impl, [(m, p) for m, p, _ in items])
         pre = []
         for (m, pts, tag), cl in zip(items, lens):
